@@ -27,6 +27,11 @@
    (4) the invariants behind (1): C05_start_invariant (what a start emits + the residual
        denotation of the resulting state is a permutation of the denotation),
        C05_deliver_invariant (what a delivery emits + residual after = residual before).
+   (4b) histories that are NOT complete: C05_confluence_prefix — whenever den_block of the body
+       succeeds, at every point of every history "emitted so far ++ residual of the state reached"
+       is a permutation of the denotation; C05_confluence_prefix_count — so no event ever occurs
+       more often than in the denotation; C05_service_in_literal_loop_at_most.
+       C05_residual_exists_start / _deliver — the residual exists whenever the denotation does.
    (5) C05_confluence_nonvacuous — a Parallel of two tasks followed by a counting loop whose
        limit is read from a variable, completed out of source order: the history differs from
        the denotation and is a permutation of it.
@@ -219,6 +224,119 @@ Theorem C05_api_invariant :
                            Permutation.Permutation R (dev_of_log (cr_log (observe b s')) ++ R').
 Proof. exact api_conf. Qed.
 Print Assumptions C05_api_invariant.
+
+(* ---- histories that are not complete ---- *)
+(* whenever the denotation exists: emitted so far + residual of the state reached is a
+   permutation of the denotation; hence no event ever occurs more often than the denotation says *)
+Theorem C05_confluence_prefix :
+  forall orc imm fuel body script tr F mid q',
+    counter_free orc ->
+    run_script orc imm fuel body sched0 script = Ok tr ->
+    den_block orc F [] body 0 0 = Ok (mid, q') ->
+    exists sF rest,
+      exec orc imm body fuel sched0 script = Ok sF /\
+      RRoot orc body (sc_root sF) rest /\
+      Permutation.Permutation
+        (DN TS production_task root_site [] :: mid ++ [DN TF production_task root_site []])
+        (trace_devs tr ++ rest).
+Proof. exact confluence_prefix. Qed.
+Print Assumptions C05_confluence_prefix.
+
+Theorem C05_confluence_prefix_count :
+  forall orc imm fuel body script tr F mid q' (p : dev -> bool),
+    counter_free orc ->
+    run_script orc imm fuel body sched0 script = Ok tr ->
+    den_block orc F [] body 0 0 = Ok (mid, q') ->
+    List.length (filter p (trace_devs tr)) <=
+    List.length (filter p (DN TS production_task root_site [] :: mid ++ [DN TF production_task root_site []])).
+Proof. exact confluence_prefix_count. Qed.
+Print Assumptions C05_confluence_prefix_count.
+
+Theorem C05_service_in_literal_loop_at_most :
+  forall orc imm fuel script tr v N n a ins,
+    counter_free orc ->
+    run_script orc imm fuel [XCount v (LimInt N) [XService n a ins]] sched0 script = Ok tr ->
+    List.length (filter (is_start_of n a) (trace_devs tr)) <= N.
+Proof. exact RefConfluence.C05_service_in_literal_loop_at_most. Qed.
+Print Assumptions C05_service_in_literal_loop_at_most.
+
+(* the residual of the state a start / a delivery produces exists whenever the denotation /
+   the residual before does *)
+Theorem C05_residual_exists_start :
+  forall orc, counter_free orc -> forall imm f,
+      (forall ctx ie s g st g',
+          start_stmt orc imm f ctx ie s g = Ok (st, g') ->
+          forall D, DS orc ie s D -> exists R, RS orc ie s st R) /\
+      (forall ctx ie ss i g r g',
+          run_block orc imm f ctx ie ss i g = Ok (r, g') ->
+          forall D, DB orc ie ss i D -> exists R, RO orc ie ss r R) /\
+      (forall ctx l g sts g',
+          start_list orc imm f ctx l g = Ok (sts, g') ->
+          forall D, DL orc l D -> exists R, RL orc l sts R) /\
+      (forall ctx ie s k g st g',
+          loop_test orc imm f ctx ie s k g = Ok (st, g') ->
+          forall D, DLoop orc ie s k D -> exists R, RS orc ie s st R).
+Proof. exact start_fwd. Qed.
+Print Assumptions C05_residual_exists_start.
+
+Theorem C05_residual_exists_deliver :
+  forall orc, counter_free orc -> forall imm f,
+      (forall ctx ie s st id g st' g',
+          deliver orc imm f ctx ie s st id g = Ok (Some st', g') ->
+          forall R, RS orc ie s st R -> exists R', RS orc ie s st' R') /\
+      (forall ctx ie ss i sti id g r g',
+          deliver_block orc imm f ctx ie ss i sti id g = Ok (Some r, g') ->
+          forall R, RB orc ie ss i sti R -> exists R', RO orc ie ss r R') /\
+      (forall ctx l sts id g sts' g',
+          deliver_list orc imm f ctx l sts id g = Ok (Some sts', g') ->
+          forall R, RL orc l sts R -> exists R', RL orc l sts' R').
+Proof. exact deliver_fwd. Qed.
+Print Assumptions C05_residual_exists_deliver.
+
+(* the executable residual [rest_*] computes the relation [RS]/[RB]/[RL] *)
+Theorem C05_rest_sound :
+  forall orc, counter_free orc -> forall f,
+      (forall ie s st R, rest_stmt orc f ie s st = Ok R -> RS orc ie s st R) /\
+      (forall ie ss i st R, rest_block orc f ie ss i st = Ok R -> RB orc ie ss i st R) /\
+      (forall l sts R, rest_list orc f l sts = Ok R -> RL orc l sts R).
+Proof. exact rest_sound. Qed.
+Print Assumptions C05_rest_sound.
+
+(* with a counter-free oracle the denotation does not depend on the query counter,
+   and (any oracle) more fuel does not change it *)
+Theorem C05_den_counter_independent :
+  forall orc, counter_free orc -> forall f,
+      (forall ie s q D q', den_stmt orc f ie s q = Ok (D, q') ->
+                           forall q2, exists q2', den_stmt orc f ie s q2 = Ok (D, q2')) /\
+      (forall ie ss i q D q', den_block orc f ie ss i q = Ok (D, q') ->
+                              forall q2, exists q2', den_block orc f ie ss i q2 = Ok (D, q2')) /\
+      (forall l q D q', den_list orc f l q = Ok (D, q') ->
+                        forall q2, exists q2', den_list orc f l q2 = Ok (D, q2')) /\
+      (forall ie s k q D q', den_loop orc f ie s k q = Ok (D, q') ->
+                             forall q2, exists q2', den_loop orc f ie s k q2 = Ok (D, q2')).
+Proof. exact den_const. Qed.
+Print Assumptions C05_den_counter_independent.
+
+Theorem C05_den_fuel_monotone :
+  forall orc f,
+      (forall ie s q r, den_stmt orc f ie s q = Ok r -> den_stmt orc (S f) ie s q = Ok r) /\
+      (forall ie ss i q r, den_block orc f ie ss i q = Ok r -> den_block orc (S f) ie ss i q = Ok r) /\
+      (forall l q r, den_list orc f l q = Ok r -> den_list orc (S f) l q = Ok r) /\
+      (forall ie s k q r, den_loop orc f ie s k q = Ok r -> den_loop orc (S f) ie s k q = Ok r).
+Proof. exact den_mono. Qed.
+Print Assumptions C05_den_fuel_monotone.
+
+(* the termination caveat: a top-level while loop whose guard is true under the (counter-free)
+   valuation: no history of the order ever completes *)
+Theorem C05_while_true_never_completes :
+  forall orc imm fuel body script tr i e b q0,
+    counter_free orc ->
+    nth_error body i = Some (XWhile e b) ->
+    decide expected_ops orc e 0 = Ok (true, q0) ->
+    run_script orc imm fuel body sched0 script = Ok tr ->
+    forall r, In r tr -> cr_final r = false.
+Proof. exact while_true_never_completes_decide. Qed.
+Print Assumptions C05_while_true_never_completes.
 
 (* ---- non-vacuity, and necessity of the hypothesis ---- *)
 Theorem C05_confluence_nonvacuous :
